@@ -13,7 +13,7 @@ class C18(PropBase):
     rule = ("fault sequences over {refuse, accept+close, accept+frames+close, accept+partial line+reset, accept+junk bytes+close, accept+frames+6.5 s up+close} "
             "of length <= 2 (quick: 10 sequences, thorough: all 42 plus 40 of length 3), each followed by a healthy connection, "
             "played by a scripted loopback peer against the real connect_and_read_tcp loop (real 5 s pauses, sequences run in "
-            "parallel processes); a first connection teaches an aircraft before the faults; every second sequence with the -l error log, every third with the -D downlink log; sequences with the long-lived connection run with delete_after = 5 s, shorter than that connection. Observed: the reader reconnects after "
+            "parallel processes); a first connection teaches an aircraft before the faults; every second sequence with the -l error log, every third with the -D downlink log; sequences with the long-lived connection run with delete_after = 5 s, shorter than that connection, the others with delete_after 600 / 0 / 1 / 2^62 and refresh intervals -1 / 0 / 3 / 2^62. Observed: the reader reconnects after "
             "every fault (liveness), the pause after k refusals is about 5k s, the table after the healthy connection holds the "
             "earlier and the new aircraft and equals the model's table for the same trace. Non-trivial = sequence with at least "
             "one refusal or reset; distinct by sequence.")
@@ -60,7 +60,11 @@ class C18(PropBase):
                 script, expect = self.script(rng, seq, i)
                 # a connection that outlives delete_after (5 s < 6.5 s) must not cost the table anything by itself:
                 # rows go only through the sweep, which needs 12 accepted frames on one connection
-                ops = ["reset", gen.cfg_op(delete_after=5 if "long" in seq else 600, elog=int(i % 2 == 1), dlog=int(i % 3 == 2)), "tcp " + script, "dump"]
+                # the other options at both ends of their ranges too (no connection carries 12 frames, so no sweep runs and the
+                # retention period must not matter at all): whatever a connection is configured with, it is read
+                da = 5 if "long" in seq else [600, 0, 600, 2 ** 62, 1][i % 5]
+                ops = ["reset", gen.cfg_op(delete_after=da, elog=int(i % 2 == 1), dlog=int(i % 3 == 2),
+                                           update=[-1, 0, 2 ** 62, 3][i % 4], use_update=bool(i % 2)), "tcp " + script, "dump"]
                 impl, so, model = r.execute(ops, model=driver_ok, timeout=600)
                 results[i] = (seq, ops, expect, impl, model)
             except Exception as e:           # noqa
